@@ -138,12 +138,20 @@ class Model(nn.Module):
         )
 
         strides = self.backbone.dec.current_strides
+        # Stride of the encoder output (the decoder's input): every decoder block halves it.
+        self.encoder_stride = self.backbone.dec.current_stride * 2
         self.head_layers = nn.ModuleList([])
         for head in self.heads:
             # The head is fed the output of the decoder block whose stride equals the
             # head's output stride (see `forward`): size it for that block's channels.
-            idx = strides.index(head.output_stride)
-            in_channels = int(self.backbone.dec.decoder_stack[idx].refine_convs_filters)
+            if head.output_stride == self.encoder_stride:
+                # A head at the backbone's max stride is fed the encoder output itself.
+                in_channels = int(self.backbone.dec.x_in_shape)
+            else:
+                idx = strides.index(head.output_stride)
+                in_channels = int(
+                    self.backbone.dec.decoder_stack[idx].refine_convs_filters
+                )
             self.head_layers.append(head.make_head(x_in=in_channels))
 
     @classmethod
@@ -170,7 +178,11 @@ class Model(nn.Module):
 
         outputs = {}
         for head, head_layer in zip(self.heads, self.head_layers):
-            idx = backbone_outputs["strides"].index(head.output_stride)
-            outputs[head.name] = head_layer(backbone_outputs["outputs"][idx])
+            if head.output_stride == self.encoder_stride:
+                features = backbone_outputs["encoder_output"]
+            else:
+                idx = backbone_outputs["strides"].index(head.output_stride)
+                features = backbone_outputs["outputs"][idx]
+            outputs[head.name] = head_layer(features)
 
         return outputs
